@@ -116,8 +116,8 @@ func (k *RoutineContainer) SetContext(ctx context.Context, restart bool) bool {
 			return
 		}
 
-		rr.stop()
 		if rr.err == nil || restart {
+			rr.stop()
 			if ctx != nil {
 				rr.start(ctx, rr.exitedCh, false)
 			}
